@@ -122,7 +122,7 @@ def run(rep):
     rng = rep.rng
     quick = rep.tier == 'quick'
     gen = G.Gen(rng, max_depth=3, allow_std=True)
-    nhist = 120 if quick else 4000
+    nhist = 500 if quick else 6000
     hist_lines, model_lines, metas = [], [], []
     fresh_jobs = []   # (hist index, request index, source index, max_stack)
     for h in range(nhist):
